@@ -1,11 +1,12 @@
 """C06 - see DESIGN.md §3.  Deductive core: the parser contracts over the token-stream ghost model
 (vf/contracts/parser.py); bounded stand-in: vf/rtc/c06_*.py."""
 from .parser_common import parser_section, protocol_section, entry_section
+from .lexeme import decoder_section
 from ..rtc import c06_termination as drv
 
 
 def run(ctx):
-    return [parser_section(ctx), protocol_section(), entry_section()] + drv.sections(ctx)
+    return [parser_section(ctx), decoder_section(ctx), protocol_section(), entry_section()] + drv.sections(ctx)
 
 
 def replay(data):
